@@ -107,7 +107,8 @@ class Individual(metaclass=ABCMeta):
     def __eq__(self, other):
         diff = 1
         for i in range(len(self.vector)):
-            diff = abs(self.vector[i] - other.vector[i])
+            d = abs(self.vector[i] - other.vector[i])
+            diff = d if i == 0 else max(diff, d)
         return diff < 1e-10
 
     def __hash__(self):
